@@ -2701,7 +2701,7 @@ class Polygon2D(Base2DIn2D):
 
     def __key(self):
         """A tuple based on the object properties, useful for hashing."""
-        return tuple(hash(pt) for pt in self._vertices)
+        return tuple(self._vertices)
 
     def __hash__(self):
         return hash(self.__key())
